@@ -7,6 +7,7 @@ mod props;
 mod rng;
 mod sexp;
 mod world;
+mod fcx;
 mod fcheck;
 
 use common::*;
@@ -129,6 +130,8 @@ fn main() {
     "jsr" => props::jsr::run(&cfg),
     "c09" => props::c09::run(&cfg),
     "c12" => props::c12::run(&cfg),
+    "c10" => props::c10::run(&cfg),
+    "c11" => props::c11::run(&cfg),
     _ => {
       eprintln!("unknown property {}", prop);
       std::process::exit(2);
